@@ -146,7 +146,10 @@ def _aimed(rng, t):
     # elements with known contents; then an existing instance (a root the caller keeps) handed
     # over as the complete replacement / nested value / element TOGETHER with >= 2 keywords, an
     # accepted one before the rejected one: the keywords go into a copy, never into the caller's object
-    return (ig.element_cases(rng, 450 if quick else 8000)
+    # copy-on-write with_<item> on a receiver whose collection is EMPTY, a callback of the closing step
+    # (__post_copy__ of the receiver, factory / preparer of a dependant reset on the copy) raising
+    return (ig.element_cases(rng, 420 if quick else 8000)
+            + ig.empty_container_cases(rng, 70 if quick else 1500)
             + ig.replacement_cases(rng, n * 7 // 10, inplace_values=(False, False, True))
             + ig.replacement_cases(rng, n * 3 // 20, inplace_values=(False, False, True), flavour="wide")
             + ig.replacement_cases(rng, n * 3 // 20, inplace_values=(False, False, True), flavour="plain"))
